@@ -12,6 +12,13 @@ namespace detail {
 template <typename T>
 [[nodiscard]] constexpr auto fdim(T x, T y) noexcept -> T
 {
+    // a NaN argument is the result: no arithmetic on it, constant evaluation would fail
+    if (x != x) {
+        return x;
+    }
+    if (y != y) {
+        return y;
+    }
     return x <= y ? T(0) : x - y;
 }
 
